@@ -89,6 +89,12 @@ pub fn run(ctx: &Ctx, rep: &mut Report) {
         });
         let world = match built {
             Ok(Ok(w)) => w,
+            Ok(Err(e)) if e.starts_with("user dictionary rejected") => {
+                // references are written only where the documented resolution rules lead to the intended word
+                rep.eval();
+                rep.violation("wrong_reference", "DictBuilder(user)", &format!("a user dictionary whose references all resolve by the documented rules is rejected: {}", clip(&e, 300)), "", json!({"world_index": wi, "layers": n_layers}));
+                continue;
+            }
             Ok(Err(e)) => {
                 if n_layers >= 15 && e.contains("TooManyDictionaries") {
                     rep.eval();
@@ -290,13 +296,29 @@ fn file_based(world: &crate::scen::World, rng: &mut Rng, rep: &mut Report, wi: u
     }
     let mut cfg_json = world.cfg_json.clone();
     cfg_json["systemDict"] = json!(dir.path.join("system.dic").to_string_lossy().to_string());
-    cfg_json["userDict"] = json!(paths);
-    let scen = |extra: &str| json!({"world_index": wi, "userDict_order": order, "detail": extra, "config": cfg_json, "world": world.describe(true)});
+    // the list is given in the JSON text, or built up with ConfigBuilder::user_dict() (one call per file, the first
+    // one possibly on top of a JSON list)
+    let via_builder = rng.below(3);
+    let json_part = match via_builder {
+        0 => paths.len(),
+        1 => 0,
+        _ => 1,
+    };
+    cfg_json["userDict"] = json!(paths[..json_part].to_vec());
+    let scen = |extra: &str| json!({"world_index": wi, "userDict_order": order, "user_dicts_in_json": json_part, "user_dicts_added_with_ConfigBuilder_user_dict": paths.len() - json_part,
+        "detail": extra, "config": cfg_json, "world": world.describe(true)});
     rep.eval();
     let loaded = guard(|| {
-        let cfg = ConfigBuilder::from_bytes(&serde_json::to_vec(&cfg_json).unwrap()).map_err(|e| format!("{:?}", e))?.resource_path(dir.path.clone()).build();
+        let mut b = ConfigBuilder::from_bytes(&serde_json::to_vec(&cfg_json).unwrap()).map_err(|e| format!("{:?}", e))?.resource_path(dir.path.clone());
+        for p in &paths[json_part..] {
+            b = b.user_dict(p.clone());
+        }
+        let cfg = b.build();
         JapaneseDictionary::from_cfg(&cfg).map_err(|e| format!("{:?}", e))
     });
+    if json_part < paths.len() {
+        rep.count("stacks_built_with_ConfigBuilder_user_dict", 1);
+    }
     let dict = match loaded {
         Ok(Ok(d)) => d,
         Ok(Err(e)) => {
